@@ -36,6 +36,17 @@ def read_mat(r):
     return np.array([r.flt() for _ in range(n * m)]).reshape(n, m)
 
 
+def indep_avg_edge(v, t):
+    t = np.asarray(t)
+    e = set()
+    for el in t:
+        for a in range(len(el)):
+            for b in range(a + 1, len(el)):
+                e.add((min(int(el[a]), int(el[b])), max(int(el[a]), int(el[b]))))
+    e = np.array(sorted(e))
+    return float(np.mean(np.linalg.norm(np.asarray(v, float)[e[:, 0]] - np.asarray(v, float)[e[:, 1]], axis=1)))
+
+
 class Check(BaseCheck):
     id = "C07"
     audit_mod = "LapyVerif.Audit.C07"
@@ -150,6 +161,15 @@ class Check(BaseCheck):
     # ---- oracle
     def search_cases(self):
         yield from self.problems(self.seed + 9, 24 if self.quick else 200, 8 if self.quick else 60)
+        # geo-referenced coordinates (offset ~ 10^6 edge lengths): every quantity of the property depends on coordinate DIFFERENCES only
+        off = np.array([4.3e5, 5.1e6, 312.0])
+        gv, gt = gen.grid(6, 5)
+        gv = np.array(gv, float); gv[:, 2] = 0.2 * np.sin(gv[:, 0]) * np.cos(gv[:, 1])
+        yield dict(kind="tri", v=gv + off, t=np.array(gt), vids=[3, 11], m=1.0, aniso=None, name="geo-referenced")
+        yield dict(kind="tri", v=0.1 * gv + off, t=np.array(gt), vids=[7], m=0.5, aniso=None, name="geo-referenced")
+        cv, ct = gen.cube_grid(2, 2, 1)
+        cv = np.array(cv, float)
+        yield dict(kind="tet", v=cv + off, t=gen.orient_tets_positive(cv, np.array(ct)), vids=[0, 5], m=1.0, aniso=None, name="geo-referenced")
         rng = gen.rng_for(self.seed, "c07ks")
         for k in range(20):
             nv, ne = int(rng.integers(3, 9)), int(rng.integers(2, 7))
@@ -183,7 +203,7 @@ class Check(BaseCheck):
             geo, calls, u = run_diffusion(kind, v, t, vids, m, aniso)
             with core.quiet():
                 fem = Solver(geo, lump=True)
-                ell = geo.avg_edge_length()
+                ell = indep_avg_edge(v, t)          # independent of the implementation: mean length of the distinct undirected edges
                 if aniso is not None:
                     fa = Solver(mk(kind, v, t), aniso=aniso)      # anisotropic stiffness (independent of the mass option)
         except Exception as e:  # noqa: BLE001
